@@ -14,6 +14,7 @@ package dnsforward
 import (
 	"bytes"
 	"context"
+	"crypto/tls"
 	"encoding/json"
 	"fmt"
 	"math/rand"
@@ -91,6 +92,9 @@ type zzC0102Req struct {
 	Name   []string `json:"name"`
 	Qtype  string   `json:"qtype"`
 	Client string   `json:"client"`
+	// Cid is the ClientID of an encrypted request: "" none, "kid" the one
+	// configured for the persistent client, "x" one configured for nobody.
+	Cid string `json:"cid"`
 }
 
 // zzC0102RR is an abstract resource record of an upstream answer.
@@ -144,6 +148,12 @@ const (
 	zzC0102C2     = "10.77.2.20"
 	zzC0102Kid    = "kid"
 	zzC0102Svc    = "4chan"
+	// zzC0102Svc2 is the service of a client's own set.
+	zzC0102Svc2 = "9gag"
+	// ClientIDs and the server name DoT clients use.
+	zzC0102KidCID    = "kidid"
+	zzC0102OtherCID  = "otherid"
+	zzC0102SrvName   = "dns.zz-verif.example"
 	zzC0102TTL    = 777
 )
 
@@ -401,6 +411,15 @@ type zzC0102Srv struct {
 	// ruleText keeps the rendering of every abstract rule for the life of the
 	// server: a list that gets the same rules again gets the same bytes.
 	ruleText map[string]string
+	// pFlag / pDeadline track what the protection APIs were told: the flag,
+	// and whether a pause deadline is recorded ("none", "future", "past").
+	pFlag     bool
+	pDeadline string
+	// protOff is true while the server itself reports that protection is not
+	// in effect although the configuration walked to says "on" (the one case
+	// the statement leaves open: the flag set through the DNS configuration
+	// API while a pause is running).
+	protOff bool
 	// settleUntil bounds the wait for the last reconfiguration to take effect
 	// (the handlers rebuild the engines asynchronously).
 	settleUntil time.Time
@@ -437,17 +456,31 @@ type zzC0102List struct {
 
 var zzC0102ListKeys = []string{"allow", "block", "block2", "offallow", "offblock"}
 
-func zzC0102Services(svc string) (b *filtering.BlockedServices) {
+// zzC0102Services returns the blocked-services setting: id is the service of
+// the set, the schedule pauses it or not.
+func zzC0102Services(svc, id string) (b *filtering.BlockedServices) {
 	b = &filtering.BlockedServices{Schedule: schedule.EmptyWeekly()}
 	switch svc {
 	case "active":
-		b.IDs = []string{zzC0102Svc}
+		b.IDs = []string{id}
 	case "paused":
-		b.IDs = []string{zzC0102Svc}
+		b.IDs = []string{id}
 		b.Schedule = schedule.FullWeekly()
 	}
 
 	return b
+}
+
+// zzC0102TLSConn is a DoT connection whose client sent the server name sn.
+type zzC0102TLSConn struct {
+	net.Conn
+	sn string
+}
+
+func (c zzC0102TLSConn) ConnectionState() (cs tls.ConnectionState) {
+	cs.ServerName = c.sn
+
+	return cs
 }
 
 var zzC0102InitOnce sync.Once
@@ -486,10 +519,11 @@ func (z *zzC0102Srv) persistent(c zzC0102Client) (p *client.Persistent) {
 	return &client.Persistent{
 		Name: zzC0102Kid, UID: client.MustNewUID(),
 		IPs:                   []netip.Addr{netip.MustParseAddr(zzC0102C1)},
+		ClientIDs:             []string{zzC0102KidCID},
 		UseOwnSettings:        c.UseOwn,
 		FilteringEnabled:      c.Filt,
 		UseOwnBlockedServices: c.Svc != "inherit",
-		BlockedServices:       zzC0102Services(c.Svc),
+		BlockedServices:       zzC0102Services(c.Svc, zzC0102Svc2),
 	}
 }
 
@@ -500,6 +534,10 @@ func zzC0102Build(cfg *zzC0102Cfg, dir string, rng *rand.Rand) (z *zzC0102Srv, e
 	z = &zzC0102Srv{
 		cfg: cfg, dir: dir, lists: map[string]*zzC0102List{}, handlers: map[string]http.HandlerFunc{},
 		asked: map[string]bool{}, wildStyle: rng.Intn(3), ruleText: map[string]string{},
+		// Request ids of the requests handed to the handler directly; far from
+		// the ids the proxy gives to the requests of the UDP sample (the
+		// ClientID of a request is kept by request id).
+		reqID: 1 << 40,
 	}
 	byKey := z.render(cfg, rng, true)
 
@@ -571,7 +609,7 @@ func zzC0102Build(cfg *zzC0102Cfg, dir string, rng *rand.Rand) (z *zzC0102Srv, e
 		BlockingIPv4:         cust4,
 		BlockingIPv6:         cust6,
 		ApplyClientFiltering: z.st.ApplyClientFiltering,
-		BlockedServices:      zzC0102Services(cfg.Svc),
+		BlockedServices:      zzC0102Services(cfg.Svc, zzC0102Svc),
 		DataDir:              dir,
 		BlockingMode:         filtering.BlockingMode(cfg.Mode),
 		Filters:              blockLists,
@@ -605,6 +643,14 @@ func zzC0102Build(cfg *zzC0102Cfg, dir string, rng *rand.Rand) (z *zzC0102Srv, e
 	z.f.Start()
 	z.f.EnableFilters(false)
 
+	z.pFlag, z.pDeadline = cfg.Prot == "on", "none"
+	switch cfg.Prot {
+	case "paused":
+		z.pDeadline = "future"
+	case "expired":
+		z.pDeadline = "past"
+	}
+
 	z.up = &zzC0102Up{}
 	z.ql = &zzC0102QLog{}
 	z.s, err = NewServer(DNSCreateParams{
@@ -619,7 +665,7 @@ func zzC0102Build(cfg *zzC0102Cfg, dir string, rng *rand.Rand) (z *zzC0102Srv, e
 	sc := &ServerConfig{
 		UDPListenAddrs: []*net.UDPAddr{{IP: net.IP{127, 0, 0, 1}}},
 		TCPListenAddrs: []*net.TCPAddr{{IP: net.IP{127, 0, 0, 1}}},
-		TLSConf:        &TLSConfig{},
+		TLSConf:        &TLSConfig{ServerName: zzC0102SrvName},
 		Config: Config{
 			UpstreamMode:     UpstreamModeLoadBalance,
 			EDNSClientSubnet: &EDNSClientSubnet{},
@@ -770,7 +816,7 @@ func (z *zzC0102Srv) reconfigure(cfg *zzC0102Cfg, rng *rand.Rand) (err error) {
 	old := z.cfg
 	oc, nc := old.Client, cfg.Client
 	oc.Known, nc.Known = false, false
-	if old.Prot != cfg.Prot || old.Filt != cfg.Filt || old.Svc != cfg.Svc || old.AAAAOff != cfg.AAAAOff ||
+	if old.Filt != cfg.Filt || old.Svc != cfg.Svc || old.AAAAOff != cfg.AAAAOff ||
 		old.Cache != cfg.Cache || oc != nc {
 		return fmt.Errorf("harness: unsupported reconfiguration %s -> %s", zzC0102JSON(old), zzC0102JSON(cfg))
 	}
@@ -803,6 +849,10 @@ func (z *zzC0102Srv) reconfigure(cfg *zzC0102Cfg, rng *rand.Rand) (err error) {
 		if err = z.postTo(z.s.handleSetConfig, "/control/dns_config", body); err != nil {
 			return err
 		}
+	}
+
+	if err = z.setProt(cfg.Prot, old.Prot, rng); err != nil {
+		return err
 	}
 
 	// Sometimes a list that keeps its rules is switched off and on again
@@ -841,6 +891,143 @@ func (z *zzC0102Srv) reconfigure(cfg *zzC0102Cfg, rng *rand.Rand) (err error) {
 	}
 	z.cfg = cfg
 	z.settleUntil = time.Now().Add(zzC0102Settle())
+
+	return err
+}
+
+// setProt brings protection to the wanted state through the two real entry
+// points: POST /control/protection (on / off / off for a duration) and POST
+// /control/dns_config (the flag only), sometimes by way of a pause.
+func (z *zzC0102Srv) setProt(want, cur string, rng *rand.Rand) (err error) {
+	protAPI := func(on bool, ms uint) (err error) {
+		z.pFlag, z.pDeadline = on, "none"
+		if ms > 0 {
+			z.pDeadline = "future"
+		}
+
+		return z.postTo(z.s.handleSetProtection, "/control/protection", map[string]any{"enabled": on, "duration": ms})
+	}
+	dnsAPI := func(on bool) (err error) {
+		z.pFlag = on
+
+		return z.postTo(z.s.handleSetConfig, "/control/dns_config", map[string]any{"protection_enabled": on})
+	}
+
+	z.protOff = false
+	detour := rng.Intn(4) == 0
+	if want == cur && !detour && !(want == "on" && z.pDeadline == "future") {
+		return nil
+	}
+
+	if detour && (want == "on" || want == "off") {
+		// by way of a pause of an hour
+		if err = protAPI(false, 3600000); err != nil {
+			return err
+		}
+	}
+
+	switch want {
+	case "on":
+		if rng.Intn(2) == 0 {
+			err = protAPI(true, 0)
+		} else {
+			err = dnsAPI(true)
+		}
+	case "off":
+		if z.pDeadline == "none" && rng.Intn(2) == 0 {
+			err = dnsAPI(false)
+		} else {
+			err = protAPI(false, 0)
+		}
+	case "paused":
+		err = protAPI(false, 3600000)
+	default:
+		// a pause that has run out
+		if err = protAPI(false, 1); err == nil {
+			time.Sleep(5 * time.Millisecond)
+			z.pDeadline = "past"
+		}
+	}
+	if err != nil {
+		return err
+	}
+
+	if want == "on" && z.pFlag && z.pDeadline == "future" {
+		// The flag was set through the DNS configuration API while a pause
+		// started through the protection API is running: the statement does
+		// not say which wins.  What the server reports decides -- and then it
+		// must hold for names and for answers alike.
+		on, _ := z.s.UpdatedProtectionStatus()
+		z.protOff = !on
+		z.ops = append(z.ops, fmt.Sprintf("(server reports protection in effect: %t)", on))
+	}
+
+	return nil
+}
+
+// failedRebuild injects a fault into a rebuild of the engines: the file of an
+// enabled rule list cannot be opened (a symbolic link onto itself: ELOOP) while
+// the custom rules are saved again unchanged, which makes filtering rebuild
+// its engines.  Afterwards the file is put back.  It reports whether a fault
+// could be injected (there must be an enabled list with rules).
+func (z *zzC0102Srv) failedRebuild(rng *rand.Rand) (done bool, err error) {
+	var live []*zzC0102List
+	for _, k := range zzC0102ListKeys {
+		if l := z.lists[k]; l.exists && l.enabled && len(l.lines) > 0 {
+			live = append(live, l)
+		}
+	}
+	if len(live) == 0 {
+		return false, nil
+	}
+
+	l := live[rng.Intn(len(live))]
+	var path string
+	for _, lists := range [][]filtering.FilterYAML{z.fc.Filters, z.fc.WhitelistFilters} {
+		for i := range lists {
+			if lists[i].URL == l.src {
+				path = lists[i].Path(z.dir)
+			}
+		}
+	}
+	if path == "" {
+		return false, fmt.Errorf("harness: list %s not found in the configuration", l.key)
+	}
+
+	z.ops = append(z.ops, "--- fault: "+path+" cannot be opened; custom rules saved again")
+	if err = os.Remove(path); err != nil {
+		return false, err
+	}
+	if err = os.Symlink(filepath.Base(path), path); err != nil {
+		return false, err
+	}
+
+	rules := append([]string{}, z.texts["custom"]...)
+	err = z.post("/control/filtering/set_rules", map[string]any{"rules": rules})
+	// Let the rebuild be attempted (it runs in filtering's own goroutine).
+	time.Sleep(time.Duration(40+rng.Intn(40)) * time.Millisecond)
+
+	return true, err
+}
+
+// heal puts the files of all lists back after failedRebuild.
+func (z *zzC0102Srv) heal() (err error) {
+	for _, lists := range [][]filtering.FilterYAML{z.fc.Filters, z.fc.WhitelistFilters} {
+		for i := range lists {
+			p := lists[i].Path(z.dir)
+			fi, serr := os.Lstat(p)
+			if serr != nil || fi.Mode()&os.ModeSymlink == 0 {
+				continue
+			}
+			for _, l := range z.lists {
+				if l.src == lists[i].URL {
+					_ = os.Remove(p)
+					err = os.WriteFile(p, zzC0102ListBody(l.key, l.lines), 0o644)
+				}
+			}
+		}
+	}
+	z.ops = append(z.ops, "--- fault removed")
 
 	return err
 }
@@ -916,11 +1103,27 @@ func (z *zzC0102Srv) query(req *zzC0102Req, ans []zzC0102RR, rng *rand.Rand, via
 			Proto: proxy.ProtoUDP, Req: m, RequestID: z.reqID,
 			Addr: netip.AddrPortFrom(netip.MustParseAddr(cli), uint16(1024+rng.Intn(60000))),
 		}
-		herr = z.s.handleDNSRequest(z.s.dnsProxy, pctx)
+		if req.Cid != "" {
+			// A DNS-over-TLS request: the ClientID is the label in front of
+			// the server name; the proxy calls HandleBefore, then the handler.
+			cid := zzC0102OtherCID
+			if req.Cid == "kid" {
+				cid = zzC0102KidCID
+			}
+			pctx.Proto = proxy.ProtoTLS
+			pctx.Conn = zzC0102TLSConn{sn: cid + "." + zzC0102SrvName}
+			herr = z.s.HandleBefore(z.s.dnsProxy, pctx)
+		}
+		if herr == nil {
+			herr = z.s.handleDNSRequest(z.s.dnsProxy, pctx)
+		}
 		res = pctx.Res
 	}
 
 	o.Concrete = fmt.Sprintf("%s %s from %s", qname, req.Qtype, cli)
+	if req.Cid != "" {
+		o.Concrete += " DoT ClientID " + req.Cid
+	}
 	o.Out = z.abs(qname, qt, res, herr, zzC0102RRs(qname, ans))
 	if res != nil {
 		o.Concrete += fmt.Sprintf(" -> rcode=%s answer=%q ns=%d", dns.RcodeToString[res.Rcode], zzC0102Strs(res.Answer), len(res.Ns))
